@@ -123,6 +123,7 @@ inductive Out where
   | ctx (b : Bytes) (openNs : Nat)                     -- contents of a With-clone's buffer
   | ce (ent : Nat) (cores : List (Option Nat)) (after errOut : Option Nat) (reuse : Bool)
                                                        -- what `CheckedEntry.Write` acts on (`reuse`: the dirty check fired)
+  | hook (ent : Nat) (after : Option Nat)              -- what a CheckWriteHook reads from the `*CheckedEntry` it was handed
   | err (e : Option Nat)                               -- the error `errArrayElem.MarshalLogObject` encodes
   | stack (pcs : List Nat)                             -- the program counters a captured Stack iterates over
 deriving DecidableEq, Repr
@@ -140,6 +141,7 @@ structure Code where
   resetClearsErrOut : Bool := true     -- CheckedEntry.reset: ce.ErrorOutput = nil
   elemClearedOnPut : Bool := true      -- errArrayElem.Free: e.err = nil (a reference only: never read before the next set)
   freeAfterSink : Bool := true         -- ioCore.Write: buf.Free() after c.out.Write returned
+  putAfterHook : Bool := true          -- CheckedEntry.Write: putCheckedEntry(ce) after hook.OnWrite(ce, fields) returned
 deriving DecidableEq, Repr
 
 def Code.real : Code := {}
@@ -148,13 +150,23 @@ def Code.real : Code := {}
 
 def upd (m : Nat → Bytes) (i : Nat) (v : Bytes) : Nat → Bytes := fun j => if j = i then v else m j
 
+/-- CheckedEntries live in a heap of their own: a hook is handed a POINTER, so an entry that is back in the pool
+    while its hook still runs is aliased by whoever gets it next -/
+structure CEHeap where
+  mem : Nat → CEObj
+  next : Nat                 -- ids ≥ next are unallocated
+  pool : List Nat            -- _cePool
+  inHook : List Nat          -- entries whose `Write` is inside `hook.OnWrite(ce, fields)`
+
+def updCE (m : Nat → CEObj) (i : Nat) (v : CEObj) : Nat → CEObj := fun j => if j = i then v else m j
+
 structure H where
   mem : Nat → Bytes          -- contents of every buffer ever allocated
   next : Nat                 -- ids ≥ next are unallocated
   bufPool : List Nat
   jsonPool : List JsonObj
   slicePool : List SliceObj
-  cePool : List CEObj
+  ceh : CEHeap
   errPoolCore : List ErrObj
   errPoolZap : List ErrObj
   stackPool : List StackObj
@@ -164,7 +176,7 @@ structure H where
   fault : Bool               -- a nil dereference / slice out of range / runaway loop would have happened
   out : List Out             -- observable results, newest first
 
-def H.empty : H := ⟨fun _ => [], 0, [], [], [], [], [], [], [], [], [], 0, false, []⟩
+def H.empty : H := ⟨fun _ => [], 0, [], [], [], ⟨fun _ => CEObj.fresh, 0, [], []⟩, [], [], [], [], [], 0, false, []⟩
 
 abbrev Orc := Nat → Option Nat
 
@@ -422,22 +434,65 @@ def ceReset (c : Code) (g : CEObj) : CEObj :=
     after := if c.resetClearsAfter then none else g.after,
     cores := if c.resetTruncatesCores then [] else g.cores }
 
-/-- `getCheckedEntry` -/
-def ceGet (c : Code) (orc : Orc) (h : H) : CEObj × H :=
-  let g := takeAt CEObj.fresh h.cePool (orc h.tick)
-  (ceReset c g.1, { h with cePool := g.2, tick := h.tick + 1 })
+/-- `_cePool.Get()`: `pick` = the pooled entry the pool hands out, or `New()` -/
+def cePick (pick : Option Nat) (e : CEHeap) : Nat × CEHeap :=
+  let fresh : Nat × CEHeap := (e.next, { e with next := e.next + 1, mem := updCE e.mem e.next CEObj.fresh })
+  match pick with
+  | none => fresh
+  | some i =>
+    match e.pool[i]? with
+    | some id => (id, { e with pool := e.pool.erase id })
+    | none => fresh
 
-/-- `core.Check` by every accepting core (`AddCore`), `After`, `ce.ErrorOutput = …`, then `Write` (or the entry is
-    dropped: never returned to the pool) -/
-def checkWrite (c : Code) (orc : Orc) (h : H) (ent : Nat) (cores : List Nat) (after errOut : Option Nat) (write : Bool) : H :=
-  let g := ceGet c orc h
-  let ce : CEObj := { g.1 with ent := ent, cores := g.1.cores ++ cores.map some,
-                               after := match after with | some a => some a | none => g.1.after,
-                               errOut := match errOut with | some e => some e | none => g.1.errOut }
+/-- `ce.reset()` on the entry just obtained -/
+def ceResetAt (c : Code) (r : Nat × CEHeap) : Nat × CEHeap :=
+  (r.1, { r.2 with mem := updCE r.2.mem r.1 (ceReset c (r.2.mem r.1)) })
+
+/-- `getCheckedEntry` -/
+def ceTake (c : Code) (pick : Option Nat) (e : CEHeap) : Nat × CEHeap := ceResetAt c (cePick pick e)
+
+/-- `core.Check` by every accepting core (`AddCore`), `After`, `ce.ErrorOutput = …`, then `Write` up to the point
+    where the hook is entered (or the entry is dropped: never returned to the pool).  Without a hook `Write` returns
+    the entry to the pool at once; with a hook the entry is returned when the hook has returned (`ceHookReturn`).
+    Result: the heap and what `Write` acted on -/
+def ceCheck (c : Code) (pick : Option Nat) (e : CEHeap) (ent : Nat) (cores : List Nat) (after errOut : Option Nat)
+    (write : Bool) : CEHeap × Option Out :=
+  let g := ceTake c pick e
+  let id := g.1
+  let ce0 := g.2.mem id
+  let ce : CEObj := { ce0 with ent := ent, cores := ce0.cores ++ cores.map some,
+                               after := match after with | some a => some a | none => ce0.after,
+                               errOut := match errOut with | some x => some x | none => ce0.errOut }
   if write then
-    let h1 : H := { g.2 with out := Out.ce ce.ent ce.cores ce.after ce.errOut ce.dirty :: g.2.out }
-    { h1 with cePool := { ce with dirty := true } :: h1.cePool }
-  else g.2
+    let e1 : CEHeap := { g.2 with mem := updCE g.2.mem id { ce with dirty := true } }
+    let o := Out.ce ce.ent ce.cores ce.after ce.errOut ce.dirty
+    match ce.after with
+    | some _ =>
+      if c.putAfterHook then ({ e1 with inHook := id :: e1.inHook }, some o)
+      else ({ e1 with inHook := id :: e1.inHook, pool := id :: e1.pool }, some o)
+    | none => ({ e1 with pool := id :: e1.pool }, some o)
+  else ({ g.2 with mem := updCE g.2.mem id ce }, none)
+
+/-- the i-th running hook reads the `*CheckedEntry` it was handed and returns; `Write` then calls `putCheckedEntry` -/
+def ceHookReturn (c : Code) (e : CEHeap) (i : Nat) : CEHeap × Option Out :=
+  match e.inHook[i]? with
+  | some id =>
+    let e1 : CEHeap := { e with inHook := e.inHook.eraseIdx i }
+    (if c.putAfterHook then { e1 with pool := id :: e1.pool } else e1, some (Out.hook (e.mem id).ent (e.mem id).after))
+  | none => (e, none)
+
+def pushOut (o : Option Out) (out : List Out) : List Out :=
+  match o with
+  | some x => x :: out
+  | none => out
+
+def checkWrite (c : Code) (orc : Orc) (h : H) (ent : Nat) (cores : List Nat) (after errOut : Option Nat) (write : Bool) : H :=
+  let r := ceCheck c (orc h.tick) h.ceh ent cores after errOut write
+  { h with ceh := r.1, tick := h.tick + 1, out := pushOut r.2 h.out }
+
+def hookReturn (c : Code) (h : H) (i : Nat) : H :=
+  let r := ceHookReturn c h.ceh i
+  { h with ceh := r.1, out := pushOut r.2 h.out }
 
 /-- `newErrArrayElem(err)`, `arr.AppendObject(el)`, `el.Free()` (zapcore) and the inline form of package zap -/
 def errElem (c : Code) (orc : Orc) (h : H) (zapPkg : Bool) (e : Nat) : H :=
@@ -511,6 +566,7 @@ inductive Op where
   | withClone (p : Parent) (fields : List RO) -- ioCore.With: Clone + addFields; the clone lives on
   | peek (i : Nat)                          -- somebody reads the buffer of the i-th live With-clone
   | check (ent : Nat) (cores : List Nat) (after errOut : Option Nat) (write : Bool)
+  | hookReturn (i : Nat)                    -- the hook of the i-th entry that is inside `hook.OnWrite` reads it and returns
   | errElem (zapPkg : Bool) (e : Nat)
   | capture (avail : List Nat) (full : Bool)
   | scratch (s : Bytes)                     -- FullPath / TrimmedPath / Take / Logger.check: Get, write, copy out, Free
@@ -546,6 +602,7 @@ def step (c : Code) (orc : Orc) (h : H) : Op → H
     | some b => { h with out := Out.line (h.mem b) :: h.out }
     | none => h
   | .check ent cores after errOut write => checkWrite c orc h ent cores after errOut write
+  | .hookReturn i => hookReturn c h i
   | .errElem z e => errElem c orc h z e
   | .capture avail full => capture orc h avail full
   | .scratch s =>
@@ -557,7 +614,7 @@ def step (c : Code) (orc : Orc) (h : H) : Op → H
     consoleCtxPanic c orc hd.2 p j.fields
   | .gc k =>
     { h with bufPool := keepIdx k 0 h.bufPool, jsonPool := keepIdx k 0 h.jsonPool, slicePool := keepIdx k 0 h.slicePool,
-             cePool := keepIdx k 0 h.cePool, errPoolCore := keepIdx k 0 h.errPoolCore, errPoolZap := keepIdx k 0 h.errPoolZap,
+             ceh := { h.ceh with pool := keepIdx k 0 h.ceh.pool }, errPoolCore := keepIdx k 0 h.errPoolCore, errPoolZap := keepIdx k 0 h.errPoolZap,
              stackPool := keepIdx k 0 h.stackPool }
 
 def run (c : Code) (orc : Orc) (h : H) (ops : List Op) : H := ops.foldl (step c orc) h
@@ -567,9 +624,10 @@ def run (c : Code) (orc : Orc) (h : H) (ops : List Op) : H := ops.foldl (step c 
 structure PS where
   inflight : List Bytes
   live : List Bytes
+  inHook : List (Nat × Option Nat)
   out : List Out
 
-def PS.empty : PS := ⟨[], [], []⟩
+def PS.empty : PS := ⟨[], [], [], []⟩
 
 def pureCtx (p : Parent) (fields : List RO) : Enc.Enc := runO p.spaced ⟨p.ctx, p.openNs⟩ (eraseO fields)
 
@@ -588,7 +646,15 @@ def pstep (s : PS) : Op → PS
     | some l => { s with out := Out.line l :: s.out }
     | none => s
   | .check ent cores after errOut write =>
-    if write then { s with out := Out.ce ent (cores.map some) after errOut false :: s.out } else s
+    if write then
+      match after with
+      | some a => { s with out := Out.ce ent (cores.map some) after errOut false :: s.out, inHook := (ent, some a) :: s.inHook }
+      | none => { s with out := Out.ce ent (cores.map some) after errOut false :: s.out }
+    else s
+  | .hookReturn i =>
+    match s.inHook[i]? with
+    | some v => { s with inHook := s.inHook.eraseIdx i, out := Out.hook v.1 v.2 :: s.out }
+    | none => s
   | .errElem _ e => { s with out := Out.err (some e) :: s.out }
   | .capture avail full => { s with out := Out.stack (if full then avail else avail.take 1) :: s.out }
   | .scratch b => { s with out := Out.line b :: s.out }
@@ -608,11 +674,32 @@ def nested : Nat → List Op → Bool
   | d, .withClone _ _ :: r => nested d r
   | d, .peek _ :: r => nested d r
   | d, .check _ _ _ _ _ :: r => nested d r
+  | d, .hookReturn _ :: r => nested d r
   | d, .errElem _ _ :: r => nested d r
   | d, .capture _ _ :: r => nested d r
   | d, .scratch _ :: r => nested d r
   | d, .ctxPanic _ _ :: r => nested d r
   | d, .gc _ :: r => nested d r
+
+/-- `hnested d mid`: the operations `mid` only let hooks return that were entered inside `mid` (`d` of them still
+    running) and let them all return — anything else may happen while an earlier hook is running: the hook itself
+    logging through other loggers (with or without hooks of their own), other goroutines logging, GC cycles -/
+def hnested : Nat → List Op → Bool
+  | d, [] => d == 0
+  | d, .check _ _ (some _) _ true :: r => hnested (d + 1) r
+  | d, .check _ _ none _ true :: r => hnested d r
+  | d, .check _ _ _ _ false :: r => hnested d r
+  | d, .hookReturn i :: r => decide (i < d) && hnested (d - 1) r
+  | d, .encJson _ _ :: r => hnested d r
+  | d, .encConsole _ _ :: r => hnested d r
+  | d, .deliver _ :: r => hnested d r
+  | d, .withClone _ _ :: r => hnested d r
+  | d, .peek _ :: r => hnested d r
+  | d, .errElem _ _ :: r => hnested d r
+  | d, .capture _ _ :: r => hnested d r
+  | d, .scratch _ :: r => hnested d r
+  | d, .ctxPanic _ _ :: r => hnested d r
+  | d, .gc _ :: r => hnested d r
 
 /-! ### the invariant of the heap machine -/
 
@@ -626,7 +713,7 @@ structure Inv (h : H) : Prop where
   json : ∀ o ∈ h.jsonPool, o.PutInv
   slice : ∀ a ∈ h.slicePool, a.PutInv
   stack : ∀ st ∈ h.stackPool, st.PutInv
-  ce : ∀ c ∈ h.cePool, c.PutInv
+  ce : (h.ceh.pool ++ h.ceh.inHook).Nodup ∧ ∀ x ∈ h.ceh.pool ++ h.ceh.inHook, x < h.ceh.next
   errCore : ∀ e ∈ h.errPoolCore, e.PutInv
   errZap : ∀ e ∈ h.errPoolZap, e.PutInv
   owns : Owns h (h.inflight ++ h.live)
@@ -634,6 +721,7 @@ structure Inv (h : H) : Prop where
 
 /-- the heap machine and the pool-free run agree on everything observable, now and later -/
 def Rel (h : H) (ps : PS) : Prop :=
-  h.inflight.map h.mem = ps.inflight ∧ h.live.map h.mem = ps.live ∧ h.out = ps.out
+  h.inflight.map h.mem = ps.inflight ∧ h.live.map h.mem = ps.live ∧ h.out = ps.out ∧
+  h.ceh.inHook.map (fun id => ((h.ceh.mem id).ent, (h.ceh.mem id).after)) = ps.inHook
 
 end ZapVerif.Pools
